@@ -14,7 +14,9 @@ import (
 	"context"
 	"encoding/json"
 	"fmt"
+	"math"
 	"math/big"
+	"reflect"
 	"sort"
 	"strings"
 	"time"
@@ -69,14 +71,16 @@ type ExtraType struct {
 
 // Schema describes one context document.
 type Schema struct {
-	URL      string      `json:"url"`
-	TypeName string      `json:"type_name"`
-	TypeIRI  string      `json:"type_iri"`
-	Ser      *string     `json:"ser"`               // nil = merklized schema (no attribute)
-	SerRaw   any         `json:"ser_raw,omitempty"` // non-string attribute value (overrides Ser)
-	CtxShape string      `json:"ctx_shape"`         // "map" (default) | "array": the type's scoped context is wrapped in an array
-	Extra    []ExtraType `json:"extra,omitempty"`
-	Doc      []byte      `json:"-"`
+	URL           string      `json:"url"`
+	TypeName      string      `json:"type_name"`
+	TypeIRI       string      `json:"type_iri"`
+	Ser           *string     `json:"ser"`                       // nil = merklized schema (no attribute)
+	SerRaw        any         `json:"ser_raw,omitempty"`         // non-string attribute value (overrides Ser)
+	TypeIDWritten string      `json:"type_id_written,omitempty"` // how the type's @id is spelled in the document (a compact IRI using a prefix of an EARLIER context); "" = TypeIRI
+	Unprotected   bool        `json:"unprotected,omitempty"`     // no @protected at the top: a later context may redefine the type
+	CtxShape      string      `json:"ctx_shape"`                 // "map" (default) | "array": the type's scoped context is wrapped in an array
+	Extra         []ExtraType `json:"extra,omitempty"`
+	Doc           []byte      `json:"-"`
 }
 
 func scopedContext(vocab string, ser any) map[string]any {
@@ -117,12 +121,18 @@ func (s *Schema) BuildDoc() []byte {
 	if s.CtxShape == "array" {
 		sc = []any{sc}
 	}
+	written := s.TypeIRI
+	if s.TypeIDWritten != "" {
+		written = s.TypeIDWritten
+	}
 	top := map[string]any{
-		"@protected": true,
-		"@version":   1.1,
-		"id":         "@id",
-		"type":       "@type",
-		s.TypeName:   map[string]any{"@id": s.TypeIRI, "@context": sc},
+		"@version": 1.1,
+		"id":       "@id",
+		"type":     "@type",
+		s.TypeName: map[string]any{"@id": written, "@context": sc},
+	}
+	if !s.Unprotected {
+		top["@protected"] = true
 	}
 	for _, e := range s.Extra {
 		switch e.Shape {
@@ -152,10 +162,37 @@ type Env struct {
 	n      int
 }
 
-func NewEnv() *Env { return &Env{Loader: ctxload.New(), Space: "gen"} }
+// A context that only declares prefixes / a vocabulary: schemas whose type @id is written as
+// `acme:Name` depend on it being listed EARLIER in the credential's @context array.
+const (
+	URLPrefixCtx = "https://schemas.example/shared/prefixes.json-ld"
+	AcmeNS       = "https://acme.example/ns#"
+	URLNoiseCtx  = "https://schemas.example/shared/noise.json-ld"
+)
+
+var (
+	prefixCtxInner = map[string]any{"acme": AcmeNS, "acmeAlias": map[string]any{"@id": "acme:alias"}}
+	noiseCtxInner  = map[string]any{"noiseTerm": "https://noise.example/ns#term", "noise": "https://noise.example/ns#"}
+)
+
+// PrefixCtxInner returns the inner context object of URLPrefixCtx (for combined schema documents).
+func PrefixCtxInner() map[string]any { return prefixCtxInner }
+
+func newEnv(space string) *Env {
+	e := &Env{Loader: ctxload.New(), Space: space}
+	for u, inner := range map[string]any{URLPrefixCtx: prefixCtxInner, URLNoiseCtx: noiseCtxInner} {
+		b, _ := json.Marshal(map[string]any{"@context": inner})
+		if err := e.Loader.Add(u, b); err != nil {
+			panic(err)
+		}
+	}
+	return e
+}
+
+func NewEnv() *Env { return newEnv("gen") }
 
 // NewEnvIn: an environment whose schema URLs live under another path segment.
-func NewEnvIn(space string) *Env { return &Env{Loader: ctxload.New(), Space: space} }
+func NewEnvIn(space string) *Env { return newEnv(space) }
 
 // MerklizeOpts are the options every call must carry to stay offline.
 func (e *Env) MerklizeOpts() []merklize.MerklizeOption {
@@ -225,6 +262,10 @@ type Spec struct {
 	TopTypes      []string  `json:"top_types,omitempty"`      // override of the top-level "type" array
 	Values        [5]string `json:"values"`                   // price, count, name, insured, since ("" = default)
 	ExtraCtx      []string  `json:"extra_ctx,omitempty"`      // more context URLs
+	PreCtx        []string  `json:"pre_ctx,omitempty"`        // context URLs listed BEFORE the schema's (after credentials/v1)
+	Override      *Schema   `json:"override,omitempty"`       // a context listed right AFTER the schema's that redefines the type (same name and IRI, other attribute)
+	Poison        string    `json:"poison,omitempty"`         // a Go value json.Marshal rejects, put into CredentialSubject after decoding: nan | inf | chan | func | marshaler
+	WithProof     bool      `json:"with_proof,omitempty"`     // the credential carries a BJJSignature2021 proof (whose core claim is ProofClaim())
 	SubjectTypes  []string  `json:"subject_types,omitempty"`  // credentialSubject.type written as this array instead of the type name
 	Undefined     bool      `json:"undefined,omitempty"`      // credentialSubject carries a property no context defines (merklizes only with safe mode off)
 	// AltSchema: the document a SECOND document loader serves at Schema.URL (same URL, type
@@ -289,7 +330,12 @@ func Build(sp Spec) (*Cred, error) {
 	if top == nil {
 		top = []string{"VerifiableCredential", sp.Schema.TypeName}
 	}
-	ctxs := append([]string{ctxload.URLCredentialsV1, sp.Schema.URL}, sp.ExtraCtx...)
+	ctxs := append([]string{ctxload.URLCredentialsV1}, sp.PreCtx...)
+	ctxs = append(ctxs, sp.Schema.URL)
+	if sp.Override != nil {
+		ctxs = append(ctxs, sp.Override.URL)
+	}
+	ctxs = append(ctxs, sp.ExtraCtx...)
 	doc := map[string]any{
 		"@context":          ctxs,
 		"id":                "urn:uuid:8a2a7b06-3c7f-4e0b-9d52-5b6f9c0d1e2f",
@@ -310,7 +356,85 @@ func Build(sp Spec) (*Cred, error) {
 	if err := json.Unmarshal(b, &c.VC); err != nil {
 		return nil, err
 	}
+	switch sp.Poison {
+	case "nan":
+		c.VC.CredentialSubject["poison"] = math.NaN()
+	case "inf":
+		c.VC.CredentialSubject["poison"] = math.Inf(1)
+	case "chan":
+		c.VC.CredentialSubject["poison"] = poisonChan
+	case "func":
+		c.VC.CredentialSubject["poison"] = poisonFunc
+	case "marshaler":
+		c.VC.CredentialSubject["poison"] = failingMarshaler{}
+	}
+	if sp.WithProof {
+		h, _ := ProofClaim().Hex()
+		c.VC.Proof = verifiable.CredentialProofs{&verifiable.BJJSignatureProof2021{
+			Type:      verifiable.BJJSignatureProofType,
+			CoreClaim: h,
+			Signature: strings.Repeat("0", 128),
+		}}
+	}
 	return c, nil
+}
+
+var (
+	poisonChan = make(chan int)
+	poisonFunc = func() {}
+)
+
+type failingMarshaler struct{}
+
+func (failingMarshaler) MarshalJSON() ([]byte, error) {
+	return nil, fmt.Errorf("this value does not marshal")
+}
+
+// ProofClaim is the core claim recorded in the proof of WithProof credentials.
+func ProofClaim() *core.Claim {
+	cl, err := core.NewClaim(core.SchemaHash{1, 2, 3, 4, 5, 6, 7, 8, 9, 10, 11, 12, 13, 14, 15, 16},
+		core.WithRevocationNonce(424242), core.WithVersion(7), core.WithFlagUpdatable(true),
+		core.WithIndexDataInts(big.NewInt(11), big.NewInt(22)), core.WithValueDataInts(big.NewInt(33), big.NewInt(44)))
+	if err != nil {
+		panic(err)
+	}
+	return cl
+}
+
+// SubjectEqual compares two credentialSubject maps, telling apart what reflect.DeepEqual cannot
+// (NaN equals NaN here; functions by code pointer).
+func SubjectEqual(a, b map[string]any) bool {
+	if len(a) != len(b) || (a == nil) != (b == nil) {
+		return false
+	}
+	for k, x := range a {
+		y, ok := b[k]
+		if !ok {
+			return false
+		}
+		fx, okx := x.(float64)
+		fy, oky := y.(float64)
+		switch {
+		case okx && oky && math.IsNaN(fx) && math.IsNaN(fy):
+		case x != nil && y != nil && reflect.TypeOf(x).Kind() == reflect.Func && reflect.TypeOf(y).Kind() == reflect.Func:
+			if reflect.ValueOf(x).Pointer() != reflect.ValueOf(y).Pointer() {
+				return false
+			}
+		default:
+			if !reflect.DeepEqual(x, y) {
+				return false
+			}
+		}
+	}
+	return true
+}
+
+// SameCredential: deep comparison of two credentials (every field, proofs included).
+func SameCredential(a, b *verifiable.W3CCredential) bool {
+	x, y := *a, *b
+	sa, sb := x.CredentialSubject, y.CredentialSubject
+	x.CredentialSubject, y.CredentialSubject = nil, nil
+	return reflect.DeepEqual(x, y) && SubjectEqual(sa, sb)
 }
 
 // ---------- the model's view of a credential ----------
